@@ -16,6 +16,27 @@ the results as long as the normalised bucket keys are distinct).  Core Lean only
 namespace Mkts.Numpy
 open Mkts.Rows Mkts.Bytes
 
+/-! ## which variant of the code the CURRENT source implements (read off the regenerated
+skeletons, see `Mkts.Rows.hasSub`; pinned by the `code_*` theorems of `Props/C27.lean`) -/
+
+/-- `Append` also compares every column's type string with the dataset's (repair of C27-F27) -/
+def appendChecksTypes : Bool :=
+  hasSub Mkts.Extracted.Skel.utils_io_NumpyMultiDataset_Append
+    ["if:name != colSeriesNames[idx]{", "call:errors.New", "return", "}",
+     "if:!ok || typeStr != nmds.ColumnTypes[idx]{", "call:errors.New", "return", "}"]
+
+/-- `ToColumnSeries` returns early only for a dataset without columns; before the repair of
+C27-F13 it indexed `ColumnData[0]` and returned a series without columns when that blob was empty -/
+def guardsNoColumns : Bool :=
+  hasSub Mkts.Extracted.Skel.utils_io_NumpyDataset_ToColumnSeries
+    ["call:NewColumnSeries", "if:len(nds.ColumnData) == 0{", "return", "}"]
+
+/-- `ToColumnSeriesMap` decodes a bucket of length ≤ 0 with `ToColumnSeries(0, 0)` (its empty
+columns); before the repair of C27-F13 it used `NewColumnSeries()` -/
+def emptyBucketDecoded : Bool :=
+  hasSub Mkts.Extracted.Skel.utils_io_NumpyMultiDataset_ToColumnSeriesMap
+    ["else{", "call:nmds.ToColumnSeries", "if:err != nil{", "return", "}", "}", "call:NewTimeBucketKeyFromString"]
+
 /-- `typeMap[t]` -/
 def typeStrOf (t : Nat) : Option String := Mkts.Extracted.typeMap.lookup t
 
@@ -68,11 +89,22 @@ def newNumpyDataset (cs : ColumnSeries) : Res NumpyDataset := do
 def newNumpyMultiDataset (nds : NumpyDataset) (key : String) : NumpyMultiDataset :=
   ⟨nds, [(key, 0)], [(key, nds.length)]⟩
 
-/-- the name comparison loop of `Append` (`colSeriesNames[idx]` panics when the series is shorter) -/
-def namesMatch : List String → List String → Res Unit
-  | [], _ => .ok ()
-  | _ :: _, [] => .error "panic:index"
-  | a :: as, b :: bs => if a != b then .error "err:append-names" else namesMatch as bs
+/-- the comparison loop of `Append` over `nmds.ColumnNames`: the name, then (since the repair of
+C27-F27) the type string of the series' column against `nmds.ColumnTypes[idx]`
+(`colSeriesNames[idx]` / `ColumnTypes[idx]` panic when the list is shorter) -/
+def shapesMatch : List String → List String → List Column → Res Unit
+  | [], _, _ => .ok ()
+  | _ :: _, _, [] => .error "panic:index"
+  | a :: as, ts, c :: cs =>
+    if a != c.name then .error "err:append-names"
+    else if appendChecksTypes then
+      match typeStrOf c.typ with
+      | none => .error "err:append-types"
+      | some str =>
+        match ts with
+        | [] => .error "panic:index"
+        | t :: ts' => if str != t then .error "err:append-types" else shapesMatch as ts' cs
+    else shapesMatch as ts.tail cs
 
 /-- `nmds.ColumnData[idx] = append(nmds.ColumnData[idx], bytes...)` for every series column -/
 def appendData : List Bytes → List Bytes → Res (List Bytes)
@@ -82,10 +114,10 @@ def appendData : List Bytes → List Bytes → Res (List Bytes)
     let rest ← appendData ds bs
     pure ((d ++ b) :: rest)
 
-/-- `NumpyMultiDataset.Append(cs, tbk)`: only the column count and the names are compared -/
+/-- `NumpyMultiDataset.Append(cs, tbk)`: column count, names and type strings are compared -/
 def NumpyMultiDataset.append (n : NumpyMultiDataset) (cs : ColumnSeries) (key : String) : Res NumpyMultiDataset := do
   if n.nds.columnData.length != cs.cols.length then throw "err:append-colcount"
-  namesMatch n.nds.columnNames (cs.cols.map (·.name))
+  shapesMatch n.nds.columnNames n.nds.columnTypes cs.cols
   let data ← appendData n.nds.columnData (cs.cols.map (fun c => c.elems.flatten))
   pure ⟨⟨n.nds.columnTypes, n.nds.columnNames, data, n.nds.length + cs.len⟩,
         mapSet n.startIndex key n.nds.length, mapSet n.lengths key cs.len⟩
@@ -142,9 +174,9 @@ def convertLoop (start len : Int) : List DataShape → List Bytes → ColumnSeri
 /-- `NumpyDataset.ToColumnSeries(startIndex, length)` -/
 def NumpyDataset.toColumnSeries (nds : NumpyDataset) (start len : Int) : Res ColumnSeries :=
   match nds.columnData with
-  | [] => .error "panic:index"
+  | [] => if guardsNoColumns then .ok ColumnSeries.empty else .error "panic:index"
   | d0 :: _ =>
-    if d0.isEmpty then .ok ColumnSeries.empty
+    if !guardsNoColumns && d0.isEmpty then .ok ColumnSeries.empty
     else do
       let shapes ← buildDataShapes nds
       convertLoop start len shapes nds.columnData ColumnSeries.empty
@@ -159,12 +191,17 @@ def addColumnSeries (csm : CSM) (key : String) (cs : ColumnSeries) : CSM :=
 
 def mapGet (m : List (String × Int)) (k : String) : Int := (m.lookup k).getD 0
 
-/-- `NumpyMultiDataset.ToColumnSeriesMap` (numpy.go; write requests): buckets of length ≤ 0 become
-an empty series, which `AddColumnSeries` then drops -/
+/-- `NumpyMultiDataset.ToColumnSeriesMap` (numpy.go; write requests): a bucket of length ≤ 0 is
+decoded to its empty columns (before the repair of C27-F13: to a series without columns, which
+`AddColumnSeries` then dropped) -/
+def NumpyMultiDataset.bucketSeries (n : NumpyMultiDataset) (p : String × Int) : Res ColumnSeries :=
+  let len := mapGet n.lengths p.1
+  if len > 0 then n.nds.toColumnSeries p.2 len
+  else if emptyBucketDecoded then n.nds.toColumnSeries 0 0 else .ok ColumnSeries.empty
+
 def NumpyMultiDataset.toColumnSeriesMap (n : NumpyMultiDataset) : Res CSM :=
   n.startIndex.foldlM (fun csm (p : String × Int) => do
-    let len := mapGet n.lengths p.1
-    let cs ← if len > 0 then n.nds.toColumnSeries p.2 len else pure ColumnSeries.empty
+    let cs ← n.bucketSeries p
     pure (addColumnSeries csm (normKey p.1) cs)) []
 
 /-- `csm[key] = cs` -/
